@@ -53,14 +53,19 @@ def main() -> int:
         print(f"replay of {a.replay}: no violation reproduced")
         return 0
 
+    from . import coverage
+
+    coverage.start(getattr(mod, "ANCHORS", []))
     mod.setup(ctx)
     if a.shard == 0:
         findings.run_witnesses(prop, ctx, mod)
     mod.run(ctx)
     if hasattr(mod, "finish"):
         mod.finish(ctx)
+    d = ctx.dump()
+    d["anchor_lines"] = coverage.report()
     with open(a.shard_out, "w") as f:
-        json.dump(ctx.dump(), f, default=str)
+        json.dump(d, f, default=str)
     return 0
 
 
